@@ -214,16 +214,27 @@ def case_mhist(ctx, case):
             else:
                 a, b = (ty, tx) if op["swap"] else (tx, ty)
                 expected_t = [-s.t[0], -s.t[1]] if op["swap"] else s.t
-            obs = _t_call(iu, a, b, op)
             ref = _t_call(fresh_iu(), a.clone(), b.clone(), op)
+            try:
+                obs = _t_call(iu, a, b, op)
+            except Exception as e:   # noqa: BLE001 — a call a freshly loaded module accepts is rejected after this history
+                ctx.pred_fail("torch-valid-call-raises-after-history",
+                              f"cross_correlation_shift_torch ({tag}) raises {_exc_name(e)} after this call history; a freshly loaded module returns a shift "
+                              "for the same images", dict(case, failing_op=step), observed=f"{_exc_name(e)}: {str(e)[:160]}", required=ref.tolist())
+                break
             n_valid += 1
             tol = B.TOL64 if (op["up"] <= 2 and op["dt"] == "float64") else B.TOL32
             d = float(np.max(np.abs(obs - ref))) if np.all(np.isfinite(obs)) else float("inf")
             ctx.stat_max("mhist:torch history-vs-fresh-module", d)
             if d > 1e-12:
-                ctx.pred_fail("torch-history-differs-from-fresh-module",
-                              f"cross_correlation_shift_torch ({tag}) returns another shift after this call history than a freshly loaded module "
-                              "does for the same images", dict(case, failing_op=step), observed=obs.tolist(), required=ref.tolist())
+                # a broken tie by itself (the result may still be right); the property predicates below supply the failing input
+                ctx.disagree("mhist-torch-vs-fresh-module", dict(case, failing_op=step), {"fresh module": ref.tolist()}, {"after history": obs.tolist()},
+                             note=f"cross_correlation_shift_torch ({tag}) returns another shift after this call history than a freshly loaded module does for the same images")
+                ok_fresh = np.all(np.isfinite(ref))
+                if expected_t is None and ok_fresh and o is not None:
+                    # no applied translation is known for a cross pair: the swapped call on fresh clones gives the requirement (swap negation)
+                    neg = _t_call(fresh_iu(), b.clone(), a.clone(), op)
+                    B.pred_swap(ctx, dict(case, failing_op=step), "torch-mhist", obs, neg, M, N, op["up"], 1.0 / max(op["up"], 1) + 1e-9 if op["up"] > 2 else B.TOL64)
             if expected_t is not None:
                 B.pred_integer_shift(ctx, dict(case, failing_op=step), "torch-mhist", obs, M, N, expected_t, op["up"], tol)
             kept.append((tag, obs.copy(), obs))
@@ -236,21 +247,25 @@ def case_mhist(ctx, case):
             else:
                 a, b = (ay, ax) if op["swap"] else (ax, ay)
                 expected_t = [-s.t[0], -s.t[1]] if op["swap"] else s.t
-            obs, img = _np_call(iu, a, b, op)
             ref, rimg = _np_call(fresh_iu(), a.copy(), b.copy(), op)
+            try:
+                obs, img = _np_call(iu, a, b, op)
+            except Exception as e:   # noqa: BLE001
+                ctx.pred_fail("np-valid-call-raises-after-history",
+                              f"cross_correlation_shift ({tag}) raises {_exc_name(e)} after this call history; a freshly loaded module returns a shift "
+                              "for the same arrays", dict(case, failing_op=step), observed=f"{_exc_name(e)}: {str(e)[:160]}", required=ref.tolist())
+                break
             n_valid += 1
             d = float(np.max(np.abs(obs - ref))) if np.all(np.isfinite(obs)) else float("inf")
             ctx.stat_max("mhist:np history-vs-fresh-module", d)
             if d > 1e-12:
-                ctx.pred_fail("np-history-differs-from-fresh-module",
-                              f"cross_correlation_shift ({tag}) returns another shift after this call history than a freshly loaded module "
-                              "does for the same arrays", dict(case, failing_op=step), observed=obs.tolist(), required=ref.tolist())
+                ctx.disagree("mhist-np-vs-fresh-module", dict(case, failing_op=step), {"fresh module": ref.tolist()}, {"after history": obs.tolist()},
+                             note=f"cross_correlation_shift ({tag}) returns another shift after this call history than a freshly loaded module does for the same arrays")
             if img is not None and rimg is not None:
                 di = float(np.max(np.abs(np.asarray(img) - np.asarray(rimg)))) if np.shape(img) == np.shape(rimg) else float("inf")
                 if not di <= 1e-9 * max(1.0, float(np.max(np.abs(rimg)))):
-                    ctx.pred_fail("np-history-image-differs-from-fresh-module",
-                                  f"aligned image returned by cross_correlation_shift ({tag}) differs from the one a freshly loaded module returns",
-                                  dict(case, failing_op=step), observed=di, required=0.0)
+                    ctx.disagree("mhist-np-image-vs-fresh-module", dict(case, failing_op=step), {"fresh module": "image"}, {"after history": "image", "max diff": di},
+                                 note=f"aligned image returned by cross_correlation_shift ({tag}) differs from the one a freshly loaded module returns")
             ms = op.get("ms")
             if expected_t is not None:
                 ct = (B.centred(-expected_t[0], M), B.centred(-expected_t[1], N))
@@ -327,7 +342,7 @@ def gen_mhist(rng):
     # a first successful call on pair 0, then a mixture in which rejected calls INTRODUCE a pair the module has not seen yet
     ops.append(t_valid(0) if fam() == "torch" else n_valid(0))
     for _ in range(rng.randint(4, 8)):
-        kind = rng.weighted([("valid", 5), ("rej", 3), ("mut", 1)])
+        kind = rng.weighted([("valid", 5), ("rej", 3), ("mut", 2)])
         s = rng.below(nimg)
         f = fam()
         if kind == "valid":
@@ -343,7 +358,73 @@ def gen_mhist(rng):
                 ops.append(v)
         else:
             ops.append({"k": "mut", "s": s, "by": [rng.randint(1, 3), rng.randint(0, 3)]})
+            if rng.chance(0.7):      # ... and reads the result for the SAME (updated) objects
+                v = t_valid(s) if f == "torch" else n_valid(s)
+                v["o"] = None
+                if f == "np" and rng.chance(0.6):
+                    v["fin"] = False
+                ops.append(v)
     return {"stream": "mhist", "imgs": imgs, "ts": ts, "ops": ops}
+
+
+def fixed_mhist(rng):
+    """a FIXED block of histories (structure independent of the seed, only the pixel values are drawn): for every kind of
+    rejected call x family x dtype / input space: valid call on pair 0 -> rejected call that INTRODUCES pair 1 (objects the module
+    has never seen) -> valid calls on the same pair-1 objects (direct, swapped) -> rejected call on pair 0 -> valid call on pair 0;
+    and for every family: valid -> caller updates its arrays in place -> valid on the same objects"""
+    B = _B()
+    out = []
+
+    def imgs(r):
+        M, N = B.gen_shape(r, 4, 9)
+
+        def one():
+            for _ in range(50):      # redraw until the autocorrelation peak is unique, so that no fixed history is ever dropped
+                g = B.gen_int_image(r, M, N)
+                x = np.array(g, dtype=float)
+                if B.unique_peak(B.cc_int(x, x))[0]:
+                    return g
+            return g
+        return ([one(), one()], [[r.randint(1, M - 1), r.randint(0, N - 1)], [r.randint(0, M - 1), r.randint(1, N - 1)]])
+
+    n = 0
+    for how in T_REJECT:
+        for dt in ("float64", "float32"):
+            for up in ((2, 4) if dt == "float64" else (4,)):
+                r = rng.fork(n)
+                n += 1
+                im, ts = imgs(r)
+
+                def tv(s_, swap=False, entry="top"):
+                    return {"k": "t", "s": s_, "up": up, "dt": dt, "swap": swap, "o": None, "entry": entry}
+                ops = [tv(0), {"k": "t_rej", "s": 1, "how": how, "up": up, "dt": dt}, tv(1), tv(1, True), tv(0),
+                       {"k": "t_rej", "s": 0, "how": how, "up": up, "dt": dt}, tv(0), tv(1, False, "align")]
+                out.append({"stream": "mhist", "imgs": im, "ts": ts, "ops": ops, "fixed": f"torch:{how}:{dt}:{up}"})
+    for how in N_REJECT:
+        for fin in (False, True):
+            for ret, fout in ((True, False), (True, True)):
+                r = rng.fork(n)
+                n += 1
+                im, ts = imgs(r)
+                up = 4 if (n % 2) else 1
+
+                def nv(s_, swap=False, ret_=ret, fout_=fout, ms=None):
+                    return {"k": "n", "s": s_, "up": up, "fin": fin, "ret": ret_, "fout": fout_, "swap": swap, "ms": ms, "o": None}
+                ops = [nv(0), {"k": "n_rej", "s": 1, "how": how, "up": up, "fin": fin, "ret": ret, "fout": fout}, nv(1), nv(1, True), nv(0, ms=32),
+                       {"k": "n_rej", "s": 0, "how": how, "up": up, "fin": fin, "ret": ret, "fout": fout}, nv(0, ms=6), nv(0, ms=32), nv(1, False, False, False)]
+                out.append({"stream": "mhist", "imgs": im, "ts": ts, "ops": ops, "fixed": f"np:{how}:fin={fin}:fout={fout}"})
+    for fam in ("torch64", "torch32", "np-real", "np-fft"):
+        for up in (1, 4):
+            r = rng.fork(n)
+            n += 1
+            im, ts = imgs(r)
+            if fam.startswith("torch"):
+                v = {"k": "t", "s": 0, "up": max(up, 2), "dt": "float64" if fam == "torch64" else "float32", "swap": False, "o": None, "entry": "top"}
+            else:
+                v = {"k": "n", "s": 0, "up": up, "fin": fam == "np-fft", "ret": True, "fout": False, "swap": False, "ms": None, "o": None}
+            ops = [dict(v), {"k": "mut", "s": 0, "by": [1, 2]}, dict(v), dict(v, swap=True), {"k": "mut", "s": 0, "by": [2, 1]}, dict(v)]
+            out.append({"stream": "mhist", "imgs": im, "ts": ts, "ops": ops, "fixed": f"mut:{fam}:{up}"})
+    return out
 
 
 # ---------------------------------------------------------------------------------------
@@ -613,6 +694,11 @@ def case_stages(ctx, drv, case):
     # ---- model
     m = B.ask(drv, {"op": "full", "variant": "np", "up": up, "ref": B.fbits(ref), "im": B.fbits(im), "max_shift": None if ms is None else d.f2b(float(ms))})
     gap = d.b2f(m["gap"]) / max(d.b2f(m["scale"]), 1e-300)
+    if d.b2f(m["gap"]) == 0.0 and "cmax" in m and d.b2f(m["cmax"]) == 0.0 and ms is not None:
+        # the maximum of the search table is the exact 0.0 the mask writes (e.g. max_shift = 0 masks every lag): the tie is exact,
+        # the first-maximum rule decides and nothing is left to rounding
+        ctx.dist["stages:np peak decided by the first-maximum rule among masked zeros"] += 1
+        gap = 1.0
     if "pgap" in m and d.b2f(m["pgap"]) / max(d.b2f(m["pscale"]), 1e-300) < 1e-10:
         gap = 0.0      # the patch (3.2 px wide) wraps around a 3 px axis and holds its maximum twice: argmax decided by rounding
     if gap < 1e-7:
@@ -682,7 +768,7 @@ def gen_stages(rng):
     B = _B()
     M, N = B.gen_shape(rng, 3, 9)
     t = [rng.randint(-M, M), rng.randint(0, N - 1)]
-    ms = rng.weighted([(None, 3), ("above", 3), ("on", 2), ("below", 1), ("big", 1)])
+    ms = rng.weighted([(None, 3), ("above", 3), ("on", 2), ("below", 1), ("big", 1), ("zero", 1)])
     if ms == "on":     # a translation whose length is an integer, so that "exactly on the threshold" is exact in binary64
         t = rng.choice([[0, rng.randint(1, N - 1)], [rng.randint(1, M - 1), 0]] + ([[3, 4], [-4, 3]] if min(M, N) >= 9 else []))
     ct = (B.centred(-t[0], M), B.centred(-t[1], N))
@@ -695,4 +781,28 @@ def gen_stages(rng):
         ms = max(r - 0.5, 0.5)
     elif ms == "big":
         ms = 32
+    elif ms == "zero":
+        ms = rng.choice([0, 0.0])     # a legitimate zero: every lag is outside the disc (not the same as "no max_shift")
     return {"stream": "stages", "img": B.gen_int_image(rng, M, N), "t": t, "up": rng.choice([1, 2, 3, 4, 5, 8]), "ms": ms}
+
+
+def fixed_stages(rng):
+    """fixed block: max_shift = 0 / 0.0 (a legitimate zero, not "no max_shift"), a shift exactly on the threshold and just inside it,
+    for a non-upsampling and two upsampling factors"""
+    B = _B()
+    out = []
+    n = 0
+    for up in (1, 2, 4):
+        for ms_kind in ("zero-int", "zero-float", "on", "inside"):
+            r = rng.fork(n)
+            n += 1
+            M, N = B.gen_shape(r, 5, 9)
+            for _ in range(50):
+                img = B.gen_int_image(r, M, N)
+                x = np.array(img, dtype=float)
+                if B.unique_peak(B.cc_int(x, x))[0]:
+                    break
+            t = [0, 2] if n % 2 else [2, 0]
+            ms = {"zero-int": 0, "zero-float": 0.0, "on": 2.0, "inside": 2.0 + 2.0 ** -40}[ms_kind]
+            out.append({"stream": "stages", "img": img, "t": t, "up": up, "ms": ms, "fixed": ms_kind})
+    return out
